@@ -1000,6 +1000,8 @@ static std::string run_case(const std::string& line) {
   if (fault == 'Q') {
     // library shutdown with everything live: afterwards the process must hold no library socket
     (void)harness_sockets(c);
+    for (; c.filler > 0; c.filler--) torrent::runtime::socket_manager()->remove_unmanaged_socket();   // our own accounting entries
+    alarm(60);   // the shutdown (thread joins) gets its own watchdog budget, independent of the session set-up time
     g_S.reset();
     KernelView kv = kernel_view();
     int closes_bad = g_close_ebadf.load();
